@@ -464,6 +464,51 @@ def run (ctx, repo, mods, type_parser_classes, fallback_classes=()):
            "%s.__init__ never calls a base-class __init__ (every sibling does): an object whose parse() returned early has no `parsed` / `next` / `raw`, so packet_base.pack() and packet_base.__str__() raise AttributeError"
            % cls.name, own, 'D4')
   ctx.floor('packet class constructors', n_ctor, 28)
+  # ---- E16 address printing is total: the NDP / ARP / IPv6 printers call str() on addresses taken from the frame --------------------
+  # max() / min() of a list that a loop may leave empty raises ValueError (an IPv6 address without any all-zero group has no zero run)
+  try: am_ = repo.mod('lib.addresses')
+  except Exception: am_ = None
+  n_mm = 0
+  if am_ is not None:
+    for k_ in am_.classes.values():
+      for f_ in k_.methods.values():
+        if f_.name not in ('to_str', 'toStr', '__str__', '__repr__', 'to_tuple'): continue
+        g_ = q.cfg_of(f_)
+        for n_ in g_.nodes:
+          for c_ in q.node_calls(n_):
+            if call_name(c_) not in ('max', 'min') or not isinstance(c_.func, ast.Name) or len(c_.args) != 1 or kwarg(c_, 'default') is not None: continue
+            a0 = c_.args[0]
+            src = a0.id if isinstance(a0, ast.Name) else (a0.generators[0].iter.id if isinstance(a0, (ast.ListComp, ast.GeneratorExp)) and isinstance(a0.generators[0].iter, ast.Name) else None)
+            if src is None: continue
+            starts_empty = any(isinstance(v_, ast.List) and not v_.elts for v_, st_, kd_ in q.reaching_assign(f_.node, src))
+            if not starts_empty: continue
+            n_mm += 1
+            fs_ = q.fact_strs(g_, n_)
+            guarded = any(('len(%s)' % src) in x_ or x_.startswith(src + ':truthy') for x_ in fs_)
+            ctx.ob('R-CONTAIN', f_, "`%s` is not applied to an empty list" % norm(c_)[:40], guarded, "guarded by a test of `%s`" % src if guarded else
+                   "`%s` runs although `%s` can still be the empty list it started as: ValueError - e.g. printing an IPv6 address without an all-zero group; the ND printers (icmp_base.__str__) call str() on the target / prefix "
+                   "addresses of a parsed frame outside any try" % (norm(c_)[:50], src), (am_, c_), 'D4')
+  ctx.stat('max/min over loop-built lists in address printers', n_mm)
+  # ---- E17 what the option parser collects can be packed: no decoder hands back None as the option, or the collector tests for it --------
+  try: tm_ = repo.mod('lib.packet.tcp'); tc_ = tm_.classes.get('tcp')
+  except Exception: tc_ = None
+  po_ = tc_.methods.get('parse_options') if tc_ is not None else None
+  if po_ is not None:
+    gp_ = q.cfg_of(po_)
+    for n_ in gp_.nodes_with_call(lambda c: call_name(c) == 'append' and norm(c.func.value) == 'self.options' and len(c.args) == 1 and isinstance(c.args[0], ast.Name)):
+      c_ = [c for c in q.node_calls(n_) if call_name(c) == 'append'][0]; ov = c_.args[0].id
+      guarded = any(x_.startswith(ov + ':truthy') or x_ == '%s is not None' % ov for x_ in q.fact_strs(gp_, n_))
+      nones = []
+      for k_ in tm_.classes.values():
+        for fn_ in ('unpack_new',):
+          f_ = k_.methods.get(fn_)
+          if f_ is None: continue
+          for r_ in q.returns_of(f_.node):
+            if isinstance(r_.value, ast.Tuple) and len(r_.value.elts) == 2 and isinstance(r_.value.elts[1], ast.Constant) and r_.value.elts[1].value is None: nones.append((f_, r_))
+      good = guarded or not nones
+      ctx.ob('R-AGREE', po_, "every collected TCP option is an option object", good, "append guarded by a test of the decoded option" if guarded else "no decoder returns None as the option" if good else
+             "%s can return `%s` and parse_options appends whatever it gets: a segment reported as parsed then holds None among its options, and tcp.hdr() (`opt.pack()`) raises AttributeError when the parse result is re-serialised"
+             % (nones[0][0].qual, norm(nones[0][1].value)), (tm_, c_), 'D4')
   ctx.stat('own __str__ methods examined', n_str); ctx.stat('tuple-arity sites', n_arity); ctx.stat('self-nesting dispatch sites', n_rec); ctx.stat('TLV value slices compared', n_tlv)
 
 def tlv_value_slices (ctx, classes, clause):
